@@ -42,3 +42,30 @@ package api
 //@   loop 1 (range pin.Allocations)
 //@     invariant forall j int :: 0 <= j && j < idx1 ==> pin.Allocations[j] != pid
 //@   modifies nothing
+
+// ---- query-string form of the pin options (C08, used by the REST API: C11) ----
+//@ func parseIntParam
+//@   property C08 C11
+//@   ensures qget(q, name) == "" ==> err == nil && *dest == old(*dest)
+//@   ensures forall d *int :: d != dest ==> *d == old(*d)
+//@   modifies heap(int)
+
+//@ func StringsToPeers
+//@   property C08 C11
+//@   modifies nothing
+
+//@ func (po *PinOptions) FromQuery
+//@   property C08 C11
+//@   opts split_returns
+//@   requires po != nil
+//@   ensures [name] po.Name == qget(q, "name")
+//@   ensures [mode] po.Mode == ite(qget(q, "mode") == "direct", PinModeDirect, PinModeRecursive)
+//@   ensures [metadata-from-query] err == nil ==> forall mk string :: haskey(po.Metadata, mk) ==> exists k string :: haskey(final(q), k) && libfn("strings.HasPrefix", 0, k, pinOptionsMetaPrefix) && libfn("strings.TrimPrefix", 0, k, pinOptionsMetaPrefix) == mk && mk != "" && po.Metadata[mk] == qget(final(q), k)
+//@   ensures [metadata-complete] err == nil ==> forall k string :: haskey(final(q), k) && libfn("strings.HasPrefix", 0, k, pinOptionsMetaPrefix) && libfn("strings.TrimPrefix", 0, k, pinOptionsMetaPrefix) != "" ==> haskey(po.Metadata, libfn("strings.TrimPrefix", 0, k, pinOptionsMetaPrefix))
+//@   ensures [untouched-others] forall o *PinOptions :: o != po ==> *o == old(*o)
+//@   loop 1 (range q)
+//@     invariant po.Name == qget(old(q), "name") && po.Mode == ite(qget(old(q), "mode") == "direct", PinModeDirect, PinModeRecursive)
+//@     invariant forall mk string :: haskey(po.Metadata, mk) ==> exists k string :: haskey(q, k) && libfn("strings.HasPrefix", 0, k, pinOptionsMetaPrefix) && libfn("strings.TrimPrefix", 0, k, pinOptionsMetaPrefix) == mk && mk != "" && po.Metadata[mk] == qget(q, k)
+//@     invariant forall k string :: in(k, seen1) && libfn("strings.HasPrefix", 0, k, pinOptionsMetaPrefix) && libfn("strings.TrimPrefix", 0, k, pinOptionsMetaPrefix) != "" ==> haskey(po.Metadata, libfn("strings.TrimPrefix", 0, k, pinOptionsMetaPrefix))
+//@     invariant forall o *PinOptions :: o != po ==> *o == old(*o)
+//@   modifies heap(PinOptions)
